@@ -180,7 +180,8 @@ def _info_bounded(prop):
 # generator (oracle side)
 
 
-def itp_text(key):
+def itp_text(key, impostor=False):
+    """impostor=True: the same residue names and sizes, other atom names (no run of any file matches it atom by atom)"""
     molname, kinds, top_resids, _ = SPECIES[key]
     lines = ["; generated by contracts/c11_system.py", "[ moleculetype ]", "; name nrexcl", f"{molname} 1", "",
              "[ atoms ]", "; nr type resnr residue atom cgnr charge mass"]
@@ -188,7 +189,7 @@ def itp_text(key):
     for kind, rid in zip(kinds, top_resids):
         for name in KINDS[kind]:
             nr += 1
-            lines.append(f"{nr:5d} C {rid:4d} {kind:5s} {name:5s} {nr:4d} 0.000 12.0")
+            lines.append(f"{nr:5d} C {rid:4d} {kind:5s} {('Z' + name[1:]) if impostor else name:5s} {nr:4d} 0.000 12.0")
     lines.append("")
     if nr > 1:
         lines += ["[ bonds ]", "; i j funct length k"]
@@ -264,6 +265,12 @@ class Files:
             with open(p, "w") as f:
                 f.write(itp_text(key))
             self.ftops[key] = p
+        self.impostors = {}
+        for key in ALL_LOADABLE:
+            p = os.path.join(self.dir, f"{key}_other_atom_names.itp")
+            with open(p, "w") as f:
+                f.write(itp_text(key, impostor=True))
+            self.impostors[key] = p
         self.n = 0
 
     def gro(self, records):
@@ -631,15 +638,31 @@ def run_case(files, seq, order, res, absent=None, fresh_absent=False, only=None,
         absent = [k for k in ALL_LOADABLE if k not in seq] + ["YY"]
     System = _System()
     try:
+        # every other case: the last species is loaded in two steps -- first a topology with ITS residue names and sizes but other atom names
+        # (no run of the file matches it atom by atom: it is refused, and a refused load must leave the System as it was), then the right one
+        via_impostor = bool(order) and order[-1] in getattr(files, "impostors", {}) and (len(seq) + len(order)) % 2 == 0 and sel("refuses")
         try:
             with contextlib.redirect_stdout(io.StringIO()):
-                s = System(fgro, *[files.ftops[k] for k in order])
+                if via_impostor:
+                    s = System(fgro, *[files.ftops[k] for k in order[:-1]])
+                    key = order[-1]
+                    try:
+                        s.add_ftop(files.impostors[key])
+                        res.bad("refuses", f"add_ftop of a topology with the residues of {SPECIES[key][0]} ({'-'.join(SPECIES[key][1])}) but other atom names "
+                                           f"is accepted although no run of the file matches it atom by atom", absent=key, impostor=True)
+                        return
+                    except Exception:
+                        res.ok("refuses")
+                    s.add_ftop(files.ftops[key])
+                else:
+                    s = System(fgro, *[files.ftops[k] for k in order])
             if sel("iter"):
                 res.ok("constructs")
         except Exception as e:
-            if sel("iter"):
+            if sel("iter") or via_impostor:
                 res.bad("constructs", f"System(fgro, {', '.join(order)}) raises {_exc(e)} although every loaded species "
-                                      f"has instances in the file", exc=type(e).__name__)
+                                      f"has instances in the file" + (" (the last topology was added after a refused topology with other atom names)" if via_impostor else ""),
+                        exc=type(e).__name__, impostor=via_impostor)
             return
         with contextlib.redirect_stdout(io.StringIO()):
             check_system(s, exp, records, res, only=only, index_stride=index_stride)
